@@ -894,6 +894,30 @@ def solver_establish():
                         "DoGlobalIteration (empty container, unbounded empty queue, M = 1, z* = +inf, recalc set, zero counters)")
 
 
+# ----------------------------------------------------------------------------- the public API layer (iOpt/solver.py)
+def _lift(clauses):
+    """a clause about a Process, stated about the Solver that owns it"""
+    return [c.replace("self.", "self.process.") for c in clauses]
+
+
+def solver_api_contracts():
+    """Solver.Solve / DoGlobalIteration / DoLocalRefinement / GetResults are the entry points users call: each must be
+    exactly the corresponding Process operation (same pre-state, same post-state, same notifications)."""
+    out = []
+    for src, name, params, result in ((solve(), "Solve", {}, "ref:Solution"),
+                                      (do_global_iteration(), "DoGlobalIteration", {"number": "int"}, "none"),
+                                      (do_local_refinement(), "DoLocalRefinement", {"number": "int"}, "none"),
+                                      (get_results(), "GetResults", {}, "ref:Solution")):
+        c = Contract(F_SOLVER, "Solver." + name, params=params, result=result,
+                     modifies=_lift(src.modifies), allocates=getattr(src, "allocates", True),
+                     requires=["self.process is not None"] + _lift(src.requires), ensures=_lift(src.ensures),
+                     raises={k: _lift(v) for k, v in (src.raises or {}).items()},
+                     ghost_results=dict(getattr(src, "ghost_results", {}) or {}),
+                     doc="API layer: Solver.%s is Process.%s of the solver's own process" % (name, name))
+        out.append(c)
+    return out
+
+
 def establishment_tasks():
     """(contract, callee contracts) pairs"""
     from contracts import core as cc
@@ -902,7 +926,8 @@ def establishment_tasks():
     sd = sd_init_full()
     t1 = (sd, [cc.solution_init()] + cq + depq)
     t2 = (solver_establish(), [sd, cc.evolvent_init_sym(), cc.optimization_task_init(), cc.method_init(), cc.process_init()])
-    return [t1, t2]
+    api = [(c, process_contracts()) for c in solver_api_contracts()]
+    return [t1, t2] + api
 
 
 def process_loop_specs():
